@@ -12,7 +12,8 @@ Decided here (equality of results over all rewrites is not decided; these are th
           (no extra node);
   C08-R4  renaming: evaluation only sees canonical depth-based names (C07-R4 must-pass-through), the symbolic copy of
           a variable is selected by `name.len() - 1` of the canonical name, in the comparator and in the projection;
-  C08-R5  variable occurrences and quantifier variables are renamed through the same scope map entry (C07-R2/R3)."""
+  C08-R5  variable occurrences, jump targets and quantifier variables are renamed through the same scope map entry, and the new
+          name depends on the nesting depth only (the C07-R1 equations for Var / bind / exists / forall / jump nodes)."""
 import os
 import re
 
@@ -22,6 +23,7 @@ import c07
 import evalnode as E
 import hir
 import lowlevel
+import q
 import semantics as sem
 import terms
 from terms import subterms, pt
@@ -77,7 +79,7 @@ def run(prog, rep):
         variant = str(built[0].args[0][1]).rsplit("::", 1)[-1] if built and built[0].args[0][0] == "ctor" else None
         dom_none = bool(built) and built[0].args[2] == ("ctor", "std::prelude::v1::None", ())
         dom_err = any(r for r in s.returns if r[5] == "return" and r[0][0] == "ctor" and str(r[0][1]).endswith("Err")
-                      and any(c[0] == "if" and c[2] and c[1][0] == "call" and c[1][1].endswith("is_some") and any(y == x.term for y in subterms(c[1])) for c in r[1]))
+                      and any(pol and q.is_some_test(t) is not None and any(y == x.term for y in subterms(q.is_some_test(t))) for t, pol in q.conds(r[1])))
         groups.setdefault(ch, []).append({"site": x, "long": long_name, "variant": variant, "perm": x.args[2], "dom_none": dom_none, "dom_err": dom_err})
     want_variant = {"!": "Bind", "3": "Exists", "V": "Forall", "@": "Jump"}
     want_long = {"!": "bind", "3": "exists", "V": "forall", "@": "jump"}
@@ -175,11 +177,12 @@ def run(prog, rep):
     sub = type(rep)("C08y")
     c07.run(prog, sub)
     for i in sub.instances:
-        if i.verdict == "unresolved" and i.rule in ("C07-R2", "C07-R3"):
-            rep.unresolved("C08-R5", i.key.split(":", 1)[1], i.where, i.detail)
+        put = rep.ok if i.verdict == "ok" else rep.violation if i.verdict == "violation" else rep.unresolved
         if i.rule == "C07-R4":
-            (rep.ok if i.verdict == "ok" else rep.violation if i.verdict == "violation" else rep.unresolved)("C08-R4", i.key.split(":", 1)[1], i.where, i.detail)
-        if i.rule in ("C07-R2", "C07-R3", "C07-R5") and ("variable" in i.key or "rec:Hybrid" in i.key or "depth-name" in i.key or "mk_hybrid" in i.key):
-            (rep.ok if i.verdict == "ok" else rep.violation if i.verdict == "violation" else rep.unresolved)("C08-R5", i.key.split(":", 1)[1], i.where, i.detail)
+            put("C08-R4", i.key.split(":", 1)[1], i.where, i.detail)
+        if i.rule == "C07-R1" and any(k in i.key for k in ("shape:Var", "shape:Bind", "shape:Exists", "shape:Forall", "shape:Jump", "floor")):
+            put("C08-R5", i.key.split(":", 1)[1], i.where, i.detail)
+        if i.rule == "C07-R3":
+            put("C08-R5", i.key.split(":", 1)[1], i.where, i.detail)
     rep.floor("C08-R4", 20)
-    rep.floor("C08-R5", 4)
+    rep.floor("C08-R5", 9)
